@@ -62,6 +62,9 @@ var (
 	verifCrashName  string
 	verifCrashN     int
 	verifCrashInit  sync.Once
+	verifPauseName  string
+	verifPauseN     int
+	verifPauseFor   time.Duration
 	verifFastFollow int32
 )
 
@@ -169,11 +172,24 @@ func verifPoint(name string) {
 			verifCrashName = spec[:i]
 			verifCrashN, _ = strconv.Atoi(spec[i+1:])
 		}
+		if parts := strings.Split(os.Getenv("VERIF_PAUSE_AT"), ":"); len(parts) == 3 {
+			verifPauseName = parts[0]
+			verifPauseN, _ = strconv.Atoi(parts[1])
+			ms, _ := strconv.Atoi(parts[2])
+			verifPauseFor = time.Duration(ms) * time.Millisecond
+		}
 	})
 	verifPointMx.Lock()
 	verifPointHits[name]++
 	n := verifPointHits[name]
 	verifPointMx.Unlock()
+	if verifPauseName == name && verifPauseN == n {
+		// VERIF_PAUSE_AT=name:n:ms holds the calling goroutine at the n-th hit, so
+		// that a test can place another operation (e.g. a flush) exactly there
+		fmt.Fprintf(os.Stdout, "\nVERIF-PAUSE %s %d\n", name, n)
+		os.Stdout.Sync()
+		time.Sleep(verifPauseFor)
+	}
 	if verifCrashName == name && verifCrashN == n {
 		fmt.Fprintf(os.Stdout, "\nVERIF-CRASH %s %d\n", name, n)
 		os.Stdout.Sync()
